@@ -7,8 +7,9 @@ def explore(run, lean):
     small_corr.explore_tsa(run, 60 if quick else 1500)
     small_corr.explore_tsa_operators(run, 40 if quick else 1000)
     small_corr.explore_tsa_two_attributes(run, 30 if quick else 800)
+    small_corr.explore_tsa_loader_source(run, 30 if quick else 600)
     run.extra["rule"] = ("2-3 threads executing 1-3 statements each (read, assignment, augmented assignment as real source lines) on one attribute: (A) lock-granularity schedules replayed on the Lean model (value, lock owner/count, error), (B) bytecode-granularity random schedules of __get__/__set__ checked against all serial results; (C) the same at bytecode level for every augmented operator (+= -= *= /= //= %= **= >>= <<= &= ^= |=)")
-    ROUND6_RULE = '; look-ups through the class (`Cls.x`, hasattr)'
+    ROUND6_RULE = '; look-ups through the class (`Cls.x`, hasattr); the statements in a module imported from a zip archive (source text served by the loader, round 9)'
     run.extra["rule"] += ROUND6_RULE
 
 
